@@ -123,9 +123,14 @@ func init() {
 			fault := vrt.Choose(3, true, "first-connect") // 0 fine, 1 error, 2 never answered
 			rest := vrt.Choose(3, true, "rest-lookup")    // 0 fine, 1 /pools answered 404, 2 bucket lookup answered 404
 			bufSize := []any{nil, 0, "0", "1mb"}[vrt.Choose(4, true, "dcp.bufferSize")]
+			metaOther := vrt.Choose(2, true, "checkpoints-in-a-second-bucket-with-the-OTHER-storage-back-end") == 1
 			resetGlobals()
 			mgmtFault = []string{"", "pools", "bucket"}[rest]
 			o := DcpOpts{ServerVersion: versionString(t), BucketType: k[0], Storage: k[1]}
+			if metaOther {
+				o.MetaBucket = "meta"
+				mgmtMetaStorage = map[string]string{"magma": "couchstore", "couchstore": "magma"}[k[1]]
+			}
 			o.Vbs = 2
 			o.CheckpointType = "manual"
 			if bufSize != nil {
@@ -144,7 +149,7 @@ func init() {
 				return gocbcore.SimAnswer{}
 			}
 			e := NewDcpEnv(c, o)
-			desc := fmt.Sprintf("version %v bucket %v, first DCP connect: %s, REST: %s, dcp.bufferSize=%v", t, k, []string{"fine", "rejected", "never answered"}[fault], []string{"fine", "/pools answered 404", "bucket lookup answered 404"}[rest], bufSize)
+			desc := fmt.Sprintf("version %v bucket %v (metadata bucket with the other back end: %v), first DCP connect: %s, REST: %s, dcp.bufferSize=%v", t, k, metaOther, []string{"fine", "rejected", "never answered"}[fault], []string{"fine", "/pools answered 404", "bucket lookup answered 404"}[rest], bufSize)
 			vrt.SetOutcome(desc)
 			if e.Err != nil {
 				if fault == 0 && rest == 0 {
@@ -180,7 +185,11 @@ func init() {
 			reopened := vrt.Choose(2, true, "a-vbucket-was-re-opened-after-a-transient-end") == 1
 			slow := vrt.Choose(2, true, "close-stream-answers-take-3s") == 1
 			shortTimeout := vrt.Choose(2, true, "dcp.connectionTimeout=1s") == 1
+			finite := vrt.Choose(2, true, "dcp.mode=finite") == 1
 			o := EnvOpts{Vbs: 3, CheckpointType: "manual", WrapMeta: true, Version: ver(t)}
+			if finite {
+				o.Mode = config.DcpModeFinite
+			}
 			if shortTimeout {
 				o.ConnectionTimeout = time.Second
 			}
@@ -190,9 +199,20 @@ func init() {
 			}
 			e := NewEnv(c, o)
 			e.Cons.AutoAck = true
+			if finite {
+				// the run is closed before it has reached its end: the consumer is still busy with the first event of
+				// every vBucket (the events behind it, and the stream ends, wait in the DCP queue)
+				e.Cons.OnConsume = func(d *Delivered) { vrt.Sleep(time.Hour) }
+				for vb := uint16(0); vb < 3; vb++ {
+					c.Append(vb, marker(2, 2), symbolPacket("M", 2))
+				}
+				reopened = false
+			}
 			e.Stream.Open()
-			c.WaitIdle()
-			desc := fmt.Sprintf("server %v, re-opened vBucket: %v, slow close answers: %v, connectionTimeout 1s: %v", t, reopened, slow, shortTimeout)
+			if !finite {
+				c.WaitIdle()
+			}
+			desc := fmt.Sprintf("server %v, re-opened vBucket: %v, slow close answers: %v, connectionTimeout 1s: %v, finite: %v", t, reopened, slow, shortTimeout, finite)
 			vrt.SetOutcome(desc)
 			if reopened {
 				c.EndStream(1, gocbcore.ErrDCPStreamStateChanged)
